@@ -718,7 +718,13 @@ theorem noUnlock_parts {h : Hooks} (hn : h.noUnlock = true) :
     h.cancelCb.all (fun o => !o.isUnlock) = true ∧ h.pull.all (fun o => !o.isUnlock) = true := by
   unfold Hooks.noUnlock at hn
   simp only [List.all_append, Bool.and_eq_true] at hn
-  exact ⟨hn.1.1.1, hn.1.1.2, hn.1.2, hn.2⟩
+  exact ⟨hn.1.1.1.1, hn.1.1.1.2, hn.1.1.2, hn.1.2⟩
+
+/-- … nor among the pool calls a worker makes between two awaits -/
+theorem noUnlock_next {h : Hooks} (hn : h.noUnlock = true) : h.next.all (fun o => !o.isUnlock) = true := by
+  unfold Hooks.noUnlock at hn
+  simp only [List.all_append, Bool.and_eq_true] at hn
+  exact hn.2
 
 theorem default_noUnlock : (default : Req).hooks.noUnlock = true := rfl
 
@@ -866,9 +872,11 @@ theorem ps_stepCreated (p : Pool) (t : Nat) (tk : PTask) : PS p (p.stepCreated t
     · exact h0.trans (ps_afterWorker _ _ _)
     · exact h0.trans ((pstep_modTask _ _ _).trans (pstep_suspendTask _ _ _)).ps
 
-theorem pstep_workerNext (p : Pool) (t : Nat) : PStep p (p.workerNext t) := by
+theorem ps_workerNext (p : Pool) (t : Nat) (tk : PTask) : PS p (p.workerNext t tk) := by
+  intro hn
   unfold workerNext
-  exact ((pstep_logEv p _).trans (pstep_modTask _ _ _)).trans (pstep_suspendTask _ _ _)
+  exact (((pstep_logEv p _).trans (pstep_modTask _ _ _)).trans
+    (pstep_runHooks _ _ _ (noUnlock_next (hn.reqOf tk)))).trans (pstep_suspendTask _ _ _)
 
 theorem ps_workerCancelled (p : Pool) (t : Nat) (tk : PTask) : PS p (p.workerCancelled t tk) := by
   unfold workerCancelled
@@ -887,7 +895,7 @@ theorem ps_stepInWorker (p : Pool) (t : Nat) (tk : PTask) : PS p (p.stepInWorker
   · exact (pstep_modTask p _ _).ps.trans (ps_workerCancelled _ t tk)
   · split
     · split
-      · exact (pstep_workerNext p t).ps
+      · exact ps_workerNext p t tk
       · exact ps_afterWorker p _ _
     · exact ps_afterWorker p _ _
     · exact PS.refl p
